@@ -22,6 +22,9 @@ func ProfileFor(prop string) Profile {
 	case "cutoffs":
 		p.Cutoffs = 35
 		p.WBind = 10
+	case "limit":
+		p.MaxHeight = 6
+		p.WBind = 25
 	case "churn":
 		p.WObserve = 20
 		p.WUnobserve = 18
